@@ -205,6 +205,13 @@ func runC11(r *Run, replay *Case) {
 					r.Add(c11BuiltinEval(in, data))
 				}
 			}
+		case "userfunc":
+			ins, data := c11UserFuncInputs()
+			for _, in := range ins {
+				if in["expr"] == replay.Input["expr"] && in["pos"] == replay.Input["pos"] {
+					r.Add(c11UserFuncEval(in, data))
+				}
+			}
 		case "guard":
 			from, to := 0, 0
 			if f, ok := replay.Input["from"].(float64); ok {
@@ -218,6 +225,11 @@ func runC11(r *Run, replay *Case) {
 				ins, data := c11BuiltinInputs()
 				for i := from; i < to && i < len(ins); i++ {
 					r.Add(c11BuiltinEval(ins[i], data))
+				}
+			case "userfunc":
+				ins, data := c11UserFuncInputs()
+				for i := from; i < to && i < len(ins); i++ {
+					r.Add(c11UserFuncEval(ins[i], data))
 				}
 			case "list":
 				// the parent hands the inputs over (they come from its random stream)
@@ -290,6 +302,7 @@ func runC11(r *Run, replay *Case) {
 			})
 	}
 	c11Builtins(r)
+	c11UserFuncs(r)
 	// front-matter shapes: files assembled from lines that are, begin with, or merely resemble the `---` delimiter (the loader scans for the
 	// closing delimiter by hand); every file of up to 3 such lines exhaustively, longer ones at random
 	fmLines := []string{"---", "----------------", "--- steps", "---> build", "a: 1", "", "<p>{{ a }}</p>", " ---", "---\r", "title: x --- y"}
